@@ -15,6 +15,7 @@ CONSTANTS
   MaxSt = 3
   MaxLd = 0
   MaxLen = 3
+  Template <- NoTemplate
   Q = {"BottomLE"}
   Clauses <- AllClauses
   Probe = TRUE
